@@ -94,7 +94,7 @@ T_Block == /\ IsEvent("block")
               /\ IF t \in Client /\ SendOnUnbounded(t) THEN G("blk.send.unbounded", FALSE) ELSE TRUE
               /\ IF ~Known(t) \/ yl \/ ("woken" \in DOMAIN E /\ E.woken) \/ ~CanStep(t) \/ (t \in Tasker /\ cli[t].stage = "reglock") THEN TRUE
                  ELSE IF t \in Client THEN GX("blk." \o cli[t].stage, SX(cli[t].ta), FALSE)
-                 ELSE IF t \in DOMAIN tmr THEN G(IF ~Terminated(tmr[t].a) /\ LiveH(tmr[t].a, StrongKinds) THEN "blk.timer.alive" ELSE "blk.timer", FALSE)
+                 ELSE IF t \in DOMAIN tmr THEN GX(IF ~Terminated(tmr[t].a) /\ LiveH(tmr[t].a, StrongKinds) THEN "blk.timer.alive" ELSE "blk.timer", SX(tmr[t].a), FALSE)
                  ELSE IF act[t].pc = "idle" THEN GX(IdleReason("blk.loop.", t), SX(t), FALSE)
                  ELSE IF act[t].pc = "handling" THEN G("blk.loop.handling", FALSE)
                  ELSE G("blk.loop", FALSE)
@@ -116,11 +116,11 @@ T_Exit == /\ IsEvent("exit")
                            cli[t].stage = "idle" /\ pend[t] = NoOp /\ E.how = "ready")
                 ELSE IF t \in DOMAIN tmr
                 THEN /\ G("exit.cur", cur = t /\ ~yl)
-                     /\ G(IF act[tmr[t].a].rtaken > 0 /\ tmr[t].inc = act[tmr[t].a].inc THEN "exit.timer.afterrestart"
+                     /\ GX(IF act[tmr[t].a].rtaken > 0 /\ tmr[t].inc = act[tmr[t].a].inc THEN "exit.timer.afterrestart"
                           ELSE IF ~Terminated(tmr[t].a) /\ LiveH(tmr[t].a, StrongKinds)
                           THEN (IF act[tmr[t].a].tmo >= 0 /\ ~act[tmr[t].a].failto /\ hst.ab[tmr[t].a] # <<>> THEN "exit.timer.alive.aftertimeout" ELSE "exit.timer.alive")
                           ELSE "exit.timer",
-                          tmr[t].st = "ended" /\ E.how = "ready")
+                          SX(tmr[t].a), tmr[t].st = "ended" /\ E.how = "ready")
                 ELSE \* (the state of the loop is judged first: it names what was skipped; then whose turn it was)
                      /\ GX(IF t \in Actor /\ IsBrokerType(act[t].ty) /\ act[t].pc \notin {"done", "failed"} THEN "exit.loop.broker"     \* a broker ends only with the process
                           ELSE IF t \in Actor /\ act[t].pc = "idle" /\ act[t].mq = <<>> /\ ~ChanOpen(t) THEN "exit.loop.closed"      \* left without stopped() after the last drop
